@@ -2799,3 +2799,114 @@ func ruleChildFilter(r *Run) {
 	}
 	r.Count("filtered_child_loops_over_heterogeneous_containers", n)
 }
+
+// ---------------------------------------------------------------------------
+// R-SIZED-BY-ROW (C06, C09): a scratch slice sized by the cell count of ONE row is not indexed by
+// a counter that runs over the cells of ANOTHER row (or of every row): rows of an opened table,
+// and of a table with horizontal merges, differ in length.  For `cols := make([]T, len(t.Rows[0].Cells))`
+// an access cols[j] with j bounded by len(t.Rows[i].Cells) needs a dominating j < len(cols).
+// ---------------------------------------------------------------------------
+
+func ruleSizedByRow(r *Run) {
+	p := r.P
+	n := 0
+	for _, fn := range p.ModFuncs() {
+		if fn.Pkg == nil || fn.Pkg.Pkg.Path() != pkgDoc || fn.Parent() != nil {
+			continue
+		}
+		loops := naturalLoops(fn)
+		allInstrs(fn, func(in ssa.Instruction) {
+			mk, ok := in.(*ssa.MakeSlice)
+			if !ok {
+				return
+			}
+			lc, ok := baseVar(mk.Len).(*ssa.Call)
+			if !ok {
+				return
+			}
+			if bi, ok := lc.Call.Value.(*ssa.Builtin); !ok || bi.Name() != "len" {
+				return
+			}
+			da, ok := rowDesignator(p, lc.Call.Args[0], loops)
+			if !ok {
+				return
+			}
+			n++
+			bad := ""
+			var badPos token.Pos
+			allInstrs(fn, func(in2 ssa.Instruction) {
+				ia, ok := in2.(*ssa.IndexAddr)
+				if !ok || stripConv(ia.X) != ssa.Value(mk) {
+					return
+				}
+				ph, ok := baseVar(ia.Index).(*ssa.Phi)
+				if !ok {
+					return
+				}
+				// the loop that counts ph: its header compares ph with len(cells of row B)
+				if len(ph.Block().Instrs) == 0 {
+					return
+				}
+				iff, ok := ph.Block().Instrs[len(ph.Block().Instrs)-1].(*ssa.If)
+				if !ok {
+					return
+				}
+				cmp, ok := iff.Cond.(*ssa.BinOp)
+				if !ok || cmp.Op != token.LSS || baseVar(cmp.X) != ssa.Value(ph) {
+					return
+				}
+				lc2, ok := baseVar(cmp.Y).(*ssa.Call)
+				if !ok {
+					return
+				}
+				if bi, ok := lc2.Call.Value.(*ssa.Builtin); !ok || bi.Name() != "len" {
+					return
+				}
+				if stripConv(lc2.Call.Args[0]) == ssa.Value(mk) {
+					return // counts the scratch slice itself
+				}
+				db, ok := rowDesignator(p, lc2.Call.Args[0], loops)
+				if !ok || db == da {
+					return
+				}
+				// a dominating guard  idx < len(scratch)
+				guarded := false
+				for _, b := range fn.Blocks {
+					if len(b.Instrs) == 0 || len(b.Succs) != 2 || !b.Dominates(ia.Block()) || b == ph.Block() {
+						continue
+					}
+					i2, ok := b.Instrs[len(b.Instrs)-1].(*ssa.If)
+					if !ok {
+						continue
+					}
+					c2, ok := i2.Cond.(*ssa.BinOp)
+					if !ok {
+						continue
+					}
+					for _, pair := range [][2]ssa.Value{{c2.X, c2.Y}, {c2.Y, c2.X}} {
+						if baseVar(pair[0]) != ssa.Value(ph) {
+							continue
+						}
+						if l3, ok := baseVar(pair[1]).(*ssa.Call); ok {
+							if bi, ok := l3.Call.Value.(*ssa.Builtin); ok && (bi.Name() == "len" || bi.Name() == "cap") && stripConv(l3.Call.Args[0]) == ssa.Value(mk) {
+								guarded = true
+							}
+						}
+					}
+				}
+				if !guarded {
+					bad = fmt.Sprintf("it is indexed at %s by a counter bounded by the cell count of row %s", p.pos(ia.Pos()), stableDesignator(db))
+					badPos = ia.Pos()
+				}
+			})
+			pos := mk.Pos()
+			if bad != "" {
+				pos = badPos
+			}
+			r.Check("sized-by-row", fmt.Sprintf("%s:make[%s]", shortName(fn), stableDesignator(da)), pos, bad == "",
+				fmt.Sprintf("%s allocates a slice with one element per cell of row %s: %s", shortName(fn), stableDesignator(da),
+					map[bool]string{true: "it is not indexed by a counter over another row's cells", false: bad + " — rows differ in length (opened tables, horizontal merges), so the access can be out of range: a panic instead of an error"}[bad == ""]))
+		})
+	}
+	r.Count("slices_sized_by_a_row", n)
+}
